@@ -256,7 +256,7 @@ def lit_of(val, target_int):
     return None
 
 
-def paths_of(blocks, params, handed_on_call=None):
+def paths_of(blocks, params, handed_on_call=None, versioned=None):
     """Enumerate acyclic non-cleanup paths; returns list of (conds, outcome, calls)
     outcome: 'on' (entry handed on) | 'skip' | 'error' | ('on_unless', atom)"""
     results = []
@@ -351,6 +351,12 @@ def paths_of(blocks, params, handed_on_call=None):
             dest, callee, _args, nxt = m
             p.calls.append(callee)
             name, kind = atom_for_callee(callee)
+            if name and versioned and name in versioned:
+                # the same callee applied to a value that an earlier call on this path has
+                # re-computed is a different input: should_skip_entry(ig, dent) after the
+                # symlink re-stat (DirEntryRaw::from_path) sees the RESOLVED entry
+                prior_rx, name_after, name_before = versioned[name]
+                name = name_after if any(re.search(prior_rx, c) for c in p.calls[:-1]) else name_before
             if dest:
                 dest = dest.strip()
                 if name:
